@@ -295,9 +295,10 @@ def is_valid_ip(ip: str) -> bool:
 
     Supports IPv4 and IPv6.
     """
-    if not ip or "\x00" in ip:
-        # getaddrinfo resolves empty strings to localhost, and truncates
-        # on zero bytes.
+    if not ip or "\x00" in ip or not ip.isascii():
+        # getaddrinfo resolves empty strings to localhost, truncates
+        # on zero bytes, and normalizes non-ASCII characters (IDNA/NFKC)
+        # before parsing, so e.g. "1.2.3.\xb2" would pass as "1.2.3.2".
         return False
     try:
         res = socket.getaddrinfo(
